@@ -965,7 +965,7 @@ Section ChangesProofs.
       pose proof (keyat_window rows k (N.to_nat size) E Hpos) as Hw.
       destruct (firstn (N.to_nat size) (skipn k rows)) as [|x res] eqn:Ef.
       + apply (f_equal (@length _)) in Ef. rewrite firstn_length, skipn_length in Ef. simpl in Ef. lia.
-      + rewrite <- Ef, Hw. rewrite skipn_map, firstn_map. reflexivity.
+      + cbv iota. rewrite Hw, <- Ef. rewrite skipn_map, firstn_map. reflexivity.
     - apply Nat.ltb_ge in E. rewrite skipn_all2 by exact E. rewrite firstn_nil. reflexivity.
   Qed.
 
@@ -998,9 +998,9 @@ Section ChangesProofs.
       set (i := (Nat.min (k + N.to_nat (page_size_opt ps)) (length rows) - 1)%nat).
       assert (Hi : (i < length rows)%nat) by (unfold i; lia).
       destruct (change_key_ok i Hi) as [Hne2 _]. rewrite (serialize_some _ ty Hne2).
-      f_equal. unfold tk_change.
+      f_equal. unfold tk_change, i. clear Hi Hne2. clear i.
       destruct (Nat.min (k + N.to_nat (page_size_opt ps)) (length rows)) as [|m] eqn:Em; [lia|].
-      unfold i. rewrite Em. replace (S m - 1)%nat with m by lia. reflexivity. }
+      replace (S m - 1)%nat with m by lia. reflexivity. }
     destruct k as [|j].
     - cbn [tk_change]. unfold changes_cmd. apply Hst; [left; split; reflexivity|reflexivity].
     - assert (Hj : (j < length rows)%nat) by lia.
@@ -1027,3 +1027,415 @@ Section ChangesProofs.
     - exists pages. split; [exact Hf|]. split; [exact Hi|exact Hall].
   Qed.
 End ChangesProofs.
+
+(* ------------------------------------------------------------------------------------------ *)
+(* concrete instances: the eight request functions *)
+
+Lemma strictly_sorted_isort_id {A} (rows : list (bytes * A)) :
+  strictly_sorted (map fst rows) = true ->
+  isort ble rows = rows /\ nodupb (map fst rows) = true.
+Proof.
+  intro H. destruct (strictly_sorted_rows fst rows H) as (Hs & Hn & _). split.
+  - apply (isort_id ble). exact Hs.
+  - apply nodupb_NoDup. exact Hn.
+Qed.
+
+Theorem paging_exact_read_sql_general {A} (rows : list (bytes * A)) ps :
+  nodupb (map fst rows) = true -> keys_nonempty rows = true -> keys_no_pipe rows = true ->
+  exists pages, follow (S (length rows)) (read_sql rows ps) [] = (pages, EndMarker)
+                /\ pages_items pages = map snd (isort ble rows)
+                /\ Forall (fun p => (length (fst p) <= N.to_nat (page_size_opt ps))%nat) pages.
+Proof.
+  intros H1 H2 H3. unfold read_sql.
+  exact (paging_exact_read_keyset ble ble_refl ble_total ble_antisym ble_trans rows H1 H2 H3 ps).
+Qed.
+
+Theorem paging_exact_read_sql {A} (rows : list (bytes * A)) ps :
+  strictly_sorted (map fst rows) = true -> keys_nonempty rows = true -> keys_no_pipe rows = true ->
+  exists pages, follow (S (length rows)) (read_sql rows ps) [] = (pages, EndMarker)
+                /\ pages_items pages = map snd rows
+                /\ Forall (fun p => (length (fst p) <= N.to_nat (page_size_opt ps))%nat) pages.
+Proof.
+  intros H1 H2 H3. destruct (strictly_sorted_isort_id rows H1) as [Hid Hnd].
+  destruct (paging_exact_read_sql_general rows ps Hnd H2 H3) as (pages & Hf & Hi & Hall).
+  exists pages. rewrite Hid in Hi. auto.
+Qed.
+
+Theorem paging_exact_stores_sql {A} (rows : list (bytes * A)) ps :
+  nodupb (map fst rows) = true -> keys_nonempty rows = true ->
+  exists pages, follow (S (length rows)) (stores_sql rows ps) [] = (pages, EndMarker)
+                /\ pages_items pages = map snd (isort ble rows)
+                /\ Forall (fun p => (length (fst p) <= N.to_nat (page_size_opt ps))%nat) pages.
+Proof.
+  intros H1 H2. unfold stores_sql.
+  exact (paging_exact_raw_keyset ble ble_refl ble_total ble_antisym ble_trans rows H1 H2 ps).
+Qed.
+
+Theorem paging_exact_models_sql {A} (rows : list (bytes * A)) ps :
+  nodupb (map fst rows) = true -> keys_nonempty rows = true ->
+  exists pages, follow (S (length rows)) (models_sql rows ps) [] = (pages, EndMarker)
+                /\ pages_items pages = map snd (isort desc rows)
+                /\ Forall (fun p => (length (fst p) <= N.to_nat (page_size_opt ps))%nat) pages.
+Proof.
+  intros H1 H2. unfold models_sql.
+  exact (paging_exact_raw_keyset desc desc_refl desc_total desc_antisym desc_trans rows H1 H2 ps).
+Qed.
+
+Theorem paging_exact_stores_mem {A} (rows : list (bytes * A)) ps :
+  int64_fits (length rows) (page_size_opt ps) = true ->
+  exists pages, follow (S (length rows)) (stores_mem rows ps) [] = (pages, EndMarker)
+                /\ pages_items pages = map snd (isort ble rows)
+                /\ Forall (fun p => (length (fst p) <= N.to_nat (page_size_opt ps))%nat) pages.
+Proof. intro H. unfold stores_mem. exact (paging_exact_raw_clamp ble rows ps H). Qed.
+
+Theorem paging_exact_models_mem {A} (rows : list (bytes * A)) ps :
+  int64_fits (length rows) (page_size_opt ps) = true ->
+  exists pages, follow (S (length rows)) (models_mem rows ps) [] = (pages, EndMarker)
+                /\ pages_items pages = map snd (isort desc rows)
+                /\ Forall (fun p => (length (fst p) <= N.to_nat (page_size_opt ps))%nat) pages.
+Proof. intro H. unfold models_mem. exact (paging_exact_raw_clamp desc rows ps H). Qed.
+
+(* the sorted order that ListStores / ReadAuthorizationModels deliver: a permutation of the rows
+   (each exactly once), in key order *)
+Theorem isort_ble_spec {A} (rows : list (bytes * A)) :
+  Permutation (isort ble rows) rows
+  /\ StronglySorted (fun x y => ble (fst x) (fst y) = true) (isort ble rows).
+Proof.
+  split; [apply isort_perm|]. exact (isort_sorted ble ble_total ble_trans rows).
+Qed.
+
+Theorem isort_desc_spec {A} (rows : list (bytes * A)) :
+  Permutation (isort desc rows) rows
+  /\ StronglySorted (fun x y => ble (fst y) (fst x) = true) (isort desc rows).
+Proof.
+  split; [apply isort_perm|]. exact (isort_sorted desc desc_total desc_trans rows).
+Qed.
+
+Definition ulid_keys_ok {A} (rows : list (bytes * A)) : bool :=
+  forallb (fun r => match ulid_parse (fst r) with Some _ => true | None => false end) rows.
+
+Theorem paging_exact_changes_mem {A} (rows : list (bytes * A)) ps ty :
+  strictly_sorted (map (fun r => norm_key ulid_parse (fst r)) rows) = true ->
+  ulid_keys_ok rows = true -> keys_nonempty rows = true -> keys_no_pipe rows = true ->
+  exists pages, follow_changes (S (length rows)) (changes_mem rows ps ty) [] = (pages, EndMarker)
+                /\ pages_items pages = map snd rows
+                /\ Forall (fun p => (length (fst p) <= N.to_nat (page_size_opt ps))%nat) pages.
+Proof.
+  intros H1 H2 H3 H4. unfold changes_mem.
+  exact (paging_exact_changes_generic ulid_parse false rows ty H1 H2 H3 H4 eq_refl ps).
+Qed.
+
+Theorem paging_exact_changes_sql {A} (rows : list (bytes * A)) ps ty :
+  strictly_sorted (map fst rows) = true -> keys_nonempty rows = true -> keys_no_pipe rows = true ->
+  exists pages, follow_changes (S (length rows)) (changes_sql rows ps ty) [] = (pages, EndMarker)
+                /\ pages_items pages = map snd rows
+                /\ Forall (fun p => (length (fst p) <= N.to_nat (page_size_opt ps))%nat) pages.
+Proof.
+  intros H1 H3 H4. unfold changes_sql.
+  destruct (strictly_sorted_isort_id rows H1) as [Hid _].
+  assert (H1' : strictly_sorted (map (fun r : bytes * A => norm_key (fun k => Some k) (fst r)) rows) = true).
+  { unfold norm_key. exact H1. }
+  assert (H2 : forallb (fun r : bytes * A => match (fun k : bytes => Some k) (fst r) with Some _ => true | None => false end) rows = true).
+  { apply forallb_forall. intros; reflexivity. }
+  exact (paging_exact_changes_generic (fun k => Some k) true rows ty H1' H2 H3 H4 Hid ps).
+Qed.
+
+(* ------------------------------------------------------------------------------------------ *)
+(* page_size_respected: no page is longer than the (defaulted) page size, for EVERY token *)
+
+Lemma page_offset_size {A} (l : list A) size from items next :
+  size <> 0 -> page_offset l size from = Page items next -> (length items <= N.to_nat size)%nat.
+Proof.
+  intros Hs. unfold page_offset. destruct (parse_from from) as [z|]; [|discriminate].
+  destruct ((z <=? Z.of_nat (length l))%Z && (z <? 0)%Z); [discriminate|].
+  apply N.eqb_neq in Hs. rewrite Hs. cbn [negb andb].
+  set (m := if (z <=? Z.of_nat (length l))%Z then skipn (Z.to_nat z) l else l).
+  destruct (N.to_nat size <? length m)%nat eqn:E; intro H; inversion H; subst.
+  - rewrite firstn_length. lia.
+  - apply Nat.ltb_ge in E. exact E.
+Qed.
+
+Lemma page_clamp_size {A} le (rows : list (bytes * A)) size from items next :
+  page_clamp le rows size from = Page items next -> (length items <= N.to_nat size)%nat.
+Proof.
+  unfold page_clamp. destruct (parse_from from) as [z|]; [|discriminate].
+  intro H. inversion H; subst. rewrite map_length, firstn_length. lia.
+Qed.
+
+Lemma page_keyset_size {A} le (rows : list (bytes * A)) size from items next :
+  page_keyset le rows size from = Page items next -> (length items <= N.to_nat size)%nat.
+Proof.
+  unfold page_keyset. intro H. inversion H; subst. rewrite map_length, firstn_length. lia.
+Qed.
+
+Lemma changes_page_size {A} norm sorted (rows : list (bytes * A)) size from items lastk :
+  changes_page norm sorted rows size from = CPage items lastk -> (length items <= N.to_nat size)%nat.
+Proof.
+  unfold changes_page.
+  destruct (match from with [] => Some None | _ => match norm from with Some b => Some (Some b) | None => None end end)
+    as [bd|]; [|discriminate].
+  set (m := match bd with None => _ | Some b => _ end).
+  destruct (firstn (N.to_nat size) m) as [|x res] eqn:E; [discriminate|].
+  assert (Hl : (length (x :: res) <= N.to_nat size)%nat) by (rewrite <- E, firstn_length; lia).
+  intro H. inversion H; subst. simpl. rewrite map_length. simpl in Hl. exact Hl.
+Qed.
+
+Lemma read_cmd_items {A} (st : N -> bytes -> outcome A) ps tok items next :
+  read_cmd st ps tok = Page items next ->
+  exists from c, st (page_size_opt ps) from = Page items c.
+Proof.
+  unfold read_cmd.
+  destruct (match tok with [] => Some [] | _ => match deserialize tok with Some (u, _) => Some u | None => None end end)
+    as [from|]; [|discriminate].
+  destruct (st (page_size_opt ps) from) as [its c| |] eqn:E; try discriminate.
+  destruct c as [|c0 c]; intro H.
+  - inversion H; subst. eauto.
+  - cbn [serialize] in H. inversion H; subst. eauto.
+Qed.
+
+Lemma page_size_opt_ne ps : page_size_opt ps <> 0.
+Proof. pose proof (page_size_opt_pos ps). lia. Qed.
+
+Definition within {A} (ps : Z) (o : outcome A) : Prop :=
+  match o with Page items _ => (length items <= N.to_nat (page_size_opt ps))%nat | _ => True end.
+
+Theorem page_size_respected_all {A} (l : list A) (rows : list (bytes * A)) ps ty tok :
+  within ps (read_mem l ps tok) /\ within ps (read_sql rows ps tok)
+  /\ within ps (changes_mem rows ps ty tok) /\ within ps (changes_sql rows ps ty tok)
+  /\ within ps (stores_mem rows ps tok) /\ within ps (stores_sql rows ps tok)
+  /\ within ps (models_mem rows ps tok) /\ within ps (models_sql rows ps tok).
+Proof.
+  assert (Hch : forall norm sorted, within ps (changes_cmd (changes_page norm sorted rows) ps ty tok)).
+  { intros norm sorted. unfold within, changes_cmd.
+    destruct (match tok with
+              | [] => inl []
+              | _ => match deserialize tok with
+                     | None => inr EInvalidToken
+                     | Some (u, ty0) => if beqb ty0 ty then inl u else inr EMismatchType
+                     end
+              end) as [f|e]; [|exact I].
+    destruct (changes_page norm sorted rows (page_size_opt ps) f) as [its lk| |] eqn:E.
+    - apply changes_page_size in E. destruct (serialize lk ty); exact E.
+    - simpl. lia.
+    - exact I. }
+  repeat split.
+  - unfold within, read_mem. destruct (read_cmd (page_offset l) ps tok) as [its nx| |] eqn:E; try exact I.
+    apply read_cmd_items in E as (from & c & E). eapply page_offset_size; [apply page_size_opt_ne|exact E].
+  - unfold within, read_sql. destruct (read_cmd (page_keyset ble rows) ps tok) as [its nx| |] eqn:E; try exact I.
+    apply read_cmd_items in E as (from & c & E). eapply page_keyset_size; exact E.
+  - apply Hch.
+  - apply Hch.
+  - unfold within, stores_mem, raw_cmd. destruct (page_clamp ble rows (page_size_opt ps) tok) eqn:E; try exact I.
+    eapply page_clamp_size; exact E.
+  - unfold within, stores_sql, raw_cmd. destruct (page_keyset ble rows (page_size_opt ps) tok) eqn:E; try exact I.
+    eapply page_keyset_size; exact E.
+  - unfold within, models_mem, raw_cmd. destruct (page_clamp desc rows (page_size_opt ps) tok) eqn:E; try exact I.
+    eapply page_clamp_size; exact E.
+  - unfold within, models_sql, raw_cmd. destruct (page_keyset desc rows (page_size_opt ps) tok) eqn:E; try exact I.
+    eapply page_keyset_size; exact E.
+Qed.
+
+(* ------------------------------------------------------------------------------------------ *)
+(* changes_token_type_bound *)
+
+Theorem changes_token_type_bound_cmd {A} (st : N -> bytes -> changes_result A) ps u ty ty' :
+  u <> [] -> mem c_pipe u = false -> ty <> ty' ->
+  changes_cmd st ps ty' (u ++ c_pipe :: ty) = Rejected EMismatchType.
+Proof.
+  intros Hu Hp Hty. unfold changes_cmd. pose proof (deserialize_serialize u ty Hu Hp) as Hd.
+  destruct (u ++ c_pipe :: ty) as [|c r] eqn:E.
+  - apply app_eq_nil in E. destruct E; discriminate.
+  - rewrite Hd. destruct (beqb ty ty') eqn:Eb; [|reflexivity].
+    apply beqb_eq in Eb. contradiction.
+Qed.
+
+Lemma last_key_in {A} (res : list (bytes * A)) : res <> [] -> In (last_key res) (map fst res).
+Proof.
+  intro Hne. unfold last_key. rewrite last_key_keyat. destruct res as [|x l]; [contradiction|].
+  unfold keyat. destruct (nth_error (x :: l) (length (x :: l) - 1)) as [r|] eqn:E.
+  - apply nth_error_In in E. apply in_map. exact E.
+  - apply nth_error_None in E. simpl in E. lia.
+Qed.
+
+Lemma changes_page_last_in {A} norm sorted (rows : list (bytes * A)) size from items lastk :
+  changes_page norm sorted rows size from = CPage items lastk -> In lastk (map fst rows).
+Proof.
+  unfold changes_page.
+  destruct (match from with [] => Some None | _ => match norm from with Some b => Some (Some b) | None => None end end)
+    as [bd|]; [|discriminate].
+  set (table := if sorted then isort ble rows else rows).
+  assert (Ht : forall x, In x table -> In x rows).
+  { intros x Hx. unfold table in Hx. destruct sorted; [|exact Hx].
+    eapply Permutation_in; [apply isort_perm|exact Hx]. }
+  set (m := match bd with None => table | Some b => _ end).
+  assert (Hm : forall x, In x m -> In x table).
+  { intros x Hx. unfold m in Hx. destruct bd; [|exact Hx]. apply filter_In in Hx. tauto. }
+  destruct (firstn (N.to_nat size) m) as [|x res] eqn:E; [discriminate|].
+  intro H. inversion H; subst.
+  assert (Hl : In (last_key (x :: res)) (map fst (x :: res))) by (apply last_key_in; discriminate).
+  apply in_map_iff in Hl as (r & Hr1 & Hr2). rewrite <- Hr1. apply in_map.
+  apply Ht, Hm. rewrite <- E in Hr2. rewrite <- (firstn_skipn (N.to_nat size) m).
+  apply in_or_app. left. exact Hr2.
+Qed.
+
+Theorem changes_issued_token_type_bound {A} norm sorted norm' sorted'
+        (rows rows' : list (bytes * A)) ps ps' ty ty' tok items next :
+  keys_nonempty rows = true -> keys_no_pipe rows = true ->
+  changes_cmd (changes_page norm sorted rows) ps ty tok = Page items next ->
+  items <> [] -> ty <> ty' ->
+  changes_cmd (changes_page norm' sorted' rows') ps' ty' next = Rejected EMismatchType.
+Proof.
+  intros Hne Hnp H Hitems Hty. unfold changes_cmd in H.
+  destruct (match tok with
+            | [] => inl []
+            | _ => match deserialize tok with
+                   | None => inr EInvalidToken
+                   | Some (u, ty0) => if beqb ty0 ty then inl u else inr EMismatchType
+                   end
+            end) as [f|e]; [|discriminate].
+  destruct (changes_page norm sorted rows (page_size_opt ps) f) as [its lk| |] eqn:E.
+  - apply changes_page_last_in in E.
+    unfold keys_nonempty in Hne. unfold keys_no_pipe in Hnp. rewrite forallb_forall in Hne, Hnp.
+    specialize (Hne _ E). specialize (Hnp _ E). apply negb_true_iff in Hnp.
+    assert (Hlk : lk <> []) by (destruct lk; discriminate).
+    rewrite (serialize_some lk ty Hlk) in H. inversion H; subst.
+    apply changes_token_type_bound_cmd; assumption.
+  - inversion H; subst. contradiction.
+  - discriminate.
+Qed.
+
+(* ------------------------------------------------------------------------------------------ *)
+(* malformed tokens: a token is either rejected or read as a LOWER BOUND -- the page is a prefix of
+   the items at or after the position the token denotes; nothing before it comes back, no panic *)
+
+Definition offset_sound {A} (l : list A) (size : N) (from : bytes) : Prop :=
+  match page_offset l size from with
+  | Page items _ => exists z n, parse_from from = Some z /\ items = firstn n (skipn (Z.to_nat z) l)
+  | Rejected _ => parse_from from = None
+  | Panic => False
+  end.
+
+Theorem offset_sound_iff {A} (l : list A) size from : size <> 0 ->
+  offset_sound l size from <-> offset_finding (length l) from = None.
+Proof.
+  intro Hs. apply N.eqb_neq in Hs.
+  unfold offset_sound, offset_finding, offset_token_class, page_offset.
+  destruct (parse_from from) as [z|]; [|split; reflexivity].
+  destruct (z <? 0)%Z eqn:Eneg.
+  - apply Z.ltb_lt in Eneg.
+    assert (E1 : (z <=? Z.of_nat (length l))%Z = true) by (apply Z.leb_le; lia).
+    rewrite E1. cbn [andb]. split; [intros []|discriminate].
+  - apply Z.ltb_ge in Eneg. rewrite andb_false_r. rewrite Hs. cbn [negb andb].
+    destruct (z <=? Z.of_nat (length l))%Z eqn:Ele.
+    + split; [reflexivity|]. intros _.
+      destruct (N.to_nat size <? length (skipn (Z.to_nat z) l))%nat eqn:E.
+      * exists z, (N.to_nat size). split; reflexivity.
+      * exists z, (length (skipn (Z.to_nat z) l)). split; [reflexivity|]. symmetry. apply firstn_all.
+    + apply Z.leb_gt in Ele.
+      assert (Hskip : skipn (Z.to_nat z) l = []) by (apply skipn_all2; lia).
+      destruct l as [|x l'].
+      * cbn [length Nat.ltb Nat.leb]. split; [reflexivity|]. intros _.
+        destruct (N.to_nat size <? 0)%nat; exists z, 0%nat; split; reflexivity.
+      * assert (E0 : (0 <? length (x :: l'))%nat = true) by (apply Nat.ltb_lt; simpl; lia).
+        rewrite E0. split; [|discriminate]. intro H. exfalso.
+        assert (Hpos : (0 < N.to_nat size)%nat) by (apply N.eqb_neq in Hs; lia).
+        destruct (N.to_nat size <? length (x :: l'))%nat;
+          destruct H as (z' & n & Hz & Hi); inversion Hz; subst z';
+          rewrite Hskip, firstn_nil in Hi.
+        -- destruct (N.to_nat size); [lia|]. discriminate.
+        -- discriminate.
+Qed.
+
+Theorem malformed_token_rejected_partial {A} (l : list A) size from : size <> 0 ->
+  offset_finding (length l) from = None -> offset_sound l size from.
+Proof. intros Hs H. apply offset_sound_iff; assumption. Qed.
+
+Definition five : list N := [0; 1; 2; 3; 4].
+
+(* F5 through the command layer: "99|" on five tuples, page size 2, returns the first page again
+   with next token "101|"; "-1|" panics *)
+Theorem malformed_token_rejected_refuted :
+  (exists (l : list N) size from, size <> 0 /\ ~ offset_sound l size from
+      /\ read_mem l (Z.of_N size) (from ++ [c_pipe]) = Page [0; 1] [49; 48; 49; 124])
+  /\ (exists (l : list N) size from, size <> 0 /\ ~ offset_sound l size from
+      /\ read_mem l (Z.of_N size) (from ++ [c_pipe]) = Panic).
+Proof.
+  split.
+  - exists five, 2, [57; 57]. split; [discriminate|]. split; [|vm_compute; reflexivity].
+    intro H. apply offset_sound_iff in H; [|discriminate]. vm_compute in H. discriminate.
+  - exists five, 2, [45; 49]. split; [discriminate|]. split; [|vm_compute; reflexivity].
+    intro H. apply offset_sound_iff in H; [|discriminate]. vm_compute in H. discriminate.
+Qed.
+
+Definition clamp_sound {A} le (rows : list (bytes * A)) (size : N) (from : bytes) : Prop :=
+  match page_clamp le rows size from with
+  | Page items _ => exists z n, parse_from from = Some z
+                                /\ items = map snd (firstn n (skipn (Z.to_nat z) (isort le rows)))
+  | Rejected _ => parse_from from = None
+  | Panic => False
+  end.
+
+Theorem token_lower_bound_clamp {A} le (rows : list (bytes * A)) size from :
+  clamp_sound le rows size from.
+Proof.
+  unfold clamp_sound, page_clamp. destruct (parse_from from) as [z|]; [|reflexivity].
+  cbv zeta. set (t := isort le rows).
+  destruct (Z.leb_spec z (Z.of_nat (length t))) as [Hle|Hgt].
+  - exists z. eexists. split; [reflexivity|].
+    replace (Z.to_nat (Z.max 0 (Z.min z (Z.of_nat (length t))))) with (Z.to_nat z) by lia.
+    reflexivity.
+  - exists z, 0%nat. split; [reflexivity|].
+    replace (Z.to_nat (Z.max 0 (Z.min z (Z.of_nat (length t))))) with (length t) by lia.
+    rewrite skipn_all. rewrite firstn_nil. reflexivity.
+Qed.
+
+Theorem token_lower_bound_keyset {A} le (rows : list (bytes * A)) size from :
+  exists items next n, page_keyset le rows size from = Page items next
+    /\ items = map snd (firstn n (match from with
+                                  | [] => isort le rows
+                                  | _ => filter (fun r => le from (fst r)) (isort le rows)
+                                  end)).
+Proof.
+  unfold page_keyset.
+  set (m := match from with [] => isort le rows | _ => _ end).
+  destruct (size =? 0).
+  - eexists. eexists. exists (N.to_nat size). split; reflexivity.
+  - eexists. eexists. exists (Nat.min (N.to_nat size) (S (N.to_nat size))). split; [reflexivity|].
+    rewrite firstn_firstn. reflexivity.
+Qed.
+
+Theorem token_lower_bound_changes {A} norm sorted (rows : list (bytes * A)) size from :
+  match changes_page norm sorted rows size from with
+  | CPage items _ =>
+    exists n, items = map snd (firstn n
+      (match from with
+       | [] => (if sorted then isort ble rows else rows)
+       | _ => filter (fun r => match norm from with
+                               | Some b => blt b (norm_key norm (fst r))
+                               | None => false
+                               end) (if sorted then isort ble rows else rows)
+       end))
+  | CNotFound => True
+  | CRejected _ => from <> [] /\ norm from = None
+  end.
+Proof.
+  unfold changes_page. destruct from as [|c r].
+  - destruct (firstn (N.to_nat size) (if sorted then isort ble rows else rows)) eqn:E; [exact I|].
+    exists (N.to_nat size). rewrite E. reflexivity.
+  - destruct (norm (c :: r)) as [b|]; [|split; [discriminate|reflexivity]].
+    destruct (firstn (N.to_nat size) (filter _ _)) eqn:E; [exact I|].
+    exists (N.to_nat size). rewrite E. reflexivity.
+Qed.
+
+(* tokens the serializer cannot split are rejected by the command layer, never passed down *)
+Theorem unsplittable_token_rejected {A} (st : N -> bytes -> outcome A)
+        (stc : N -> bytes -> changes_result A) ps ty tok :
+  tok <> [] -> deserialize tok = None ->
+  read_cmd st ps tok = Rejected EInvalidToken /\ changes_cmd stc ps ty tok = Rejected EInvalidToken.
+Proof.
+  intros Hne Hd. unfold read_cmd, changes_cmd. rewrite Hd.
+  destruct tok; [contradiction|]. split; reflexivity.
+Qed.
+
+Theorem undecodable_token_rejected {A} (k : bytes -> outcome A) : with_b64 None k = Rejected EInvalidToken.
+Proof. reflexivity. Qed.
